@@ -74,7 +74,7 @@ def check_container_value(c, where):
         #  rounded amounts may exceed a capacity it was within by that much)
         bad = ('volume_over_capacity', None, (v, c.max_volume))
     if bad:
-        M.violate('C03', 'SANE', f'C03:impossible_state:{bad[0]}:{where}',
+        M.violate(['C03', 'C01', 'C02'] if bad[0].startswith('nonfinite') else 'C03', 'SANE', f'C03:impossible_state:{bad[0]}:{where}',
                   {'where': where, 'what': bad[0], 'substance': bad[1], 'value': bad[2],
                    'container': F.snap_contents(c)})
     # BOOK: stored volume = sum of the volumes of the contents
@@ -186,6 +186,10 @@ def check_container_transfer(src, dst, quantity, result, exc, nested):
     where = 'nested' if nested else 'top'
     if req is None or (not R.quantity_prefix_is_judged(quantity)):
         M.count('transfer.unjudged_quantity')
+        if req is None and exc is None and isinstance(quantity, str):
+            # not a quantity by the documented grammar, yet a result came back: whatever it holds was not asked for
+            M.violate(['C14', 'C03', 'C01', 'C02'], 'PARSE', 'C14:malformed_quantity_accepted:Container.transfer',
+                      {'quantity': quantity, 'src': F.snap_contents(src), 'src_after': F.snap_contents(result[0]) if result else None})
         return
     value, base = req
     sc, dc = src.contents, dst.contents
